@@ -42,9 +42,50 @@ def run(ctx: Ctx, chk) -> None:
     chk.run_rule(who_reg, ctx)
     chk.run_rule(listen1, ctx)
     chk.run_rule(lambda c, k: tables.dispatch_total_rule(c, k, "incoming"), ctx)
+    chk.run_rule(reject_set, ctx)
 
 
 # ---------------------------------------------------------------------------
+
+
+LICENSED_REJECTIONS = {
+    # handler -> exception classes its own body may raise (what the statement and C05/C11 name): a report is refused
+    # only because its node / child is unknown or its payload is not the number it must be
+    "handle_presentation": {"MissingNodeError"},
+    "handle_set": {"MissingNodeError", "MissingChildError"},
+    "handle_req": {"MissingNodeError", "MissingChildError"},
+    "handle_i_battery_level": {"MissingNodeError", "InvalidMessageError"},
+    "handle_i_sketch_name": {"MissingNodeError"},
+    "handle_i_sketch_version": {"MissingNodeError"},
+    "handle_i_heartbeat_response": {"MissingNodeError", "InvalidMessageError"},
+    "handle_i_pre_sleep_notification": {"MissingNodeError"},
+}
+
+
+def reject_set(ctx: Ctx, chk) -> None:
+    rule = "REJECT-SET"
+    chk.rule(rule, "a reporting handler (presentation, set, req, battery, sketch, heartbeat, pre-sleep) refuses a received message only for the reasons the statement names - unknown node, unknown child, a payload that is not the required number; every other well-formed report is recorded (no further `raise` of another error class in the handler or the private helpers it calls)")
+    n = 0
+    for f0 in tables.all_handler_defs(ctx):
+        lic = LICENSED_REJECTIONS.get(f0.name)
+        if lic is None:
+            continue
+        f = ctx.inl(f0, lambda h: not h.name.startswith("handle_"))
+        for node in ctx.own_nodes(f):
+            if not isinstance(node, ast.Raise) or node.exc is None:
+                continue
+            x = node.exc.func if isinstance(node.exc, ast.Call) else node.exc
+            nm = norm(x).rsplit(".", 1)[-1]
+            if isinstance(node.exc, ast.Name) and not nm[:1].isupper():
+                continue  # re-raise of a caught exception object
+            n += 1
+            chk.instance(rule)
+            key = f"{f0.fq}::raise {nm}"
+            if nm in lic:
+                chk.ok(rule, key, f"{nm} is a rejection the statement names for {f0.name}", ctx.loc(f, node), sample=n <= 2)
+            else:
+                chk.refute(rule, key, f"{f0.qualname} refuses a report with {nm} (`{norm(node)[:70]}`): the statement lets this handler refuse a message only with {sorted(lic)}; a report rejected for another reason is not recorded although the network presented it", ctx.loc(f, node))
+    chk.floor(rule, "raise sites in reporting handlers", n, 8)
 
 
 def registry_events(ctx: Ctx, f: FuncInfo) -> list[tuple[str, ast.AST]]:
